@@ -43,7 +43,8 @@ func (b *Bar) SortEvents() {
 }
 
 func (b Bar) Len() uint8 {
-	return b.TimeSig[0] * 32 / b.TimeSig[1]
+	// multiply in a wider type: numerator*32 exceeds uint8 from 8/x on
+	return uint8(uint16(b.TimeSig[0]) * 32 / uint16(b.TimeSig[1]))
 }
 
 func (b *Bar) barPos(absTicks int64, ticks smf.MetricTicks) uint8 {
